@@ -16,7 +16,7 @@
    generated workloads on the real engine under the race detector (harness/c02.go); the two are tied by
    Gen/LockMap.v, which is regenerated from the code on every run and from which the model takes the lock
    held at every step, the source of relative names and the order of tokenizer events in Parser.Parse. *)
-From Twig Require Import Base.Bytes Gen.LockMap Model.Sched Spec.SchedSpec Proofs.SchedProofs.
+From Twig Require Import Base.Bytes Gen.LockMap Model.Sched Spec.SchedSpec Proofs.SchedProofs Proofs.SchedPhaseExample.
 
 (* Every call returns exactly what it would return if the calls ran one after another: for every workload
    in which every name has one source (sc_consistent_sources), every schedule on which all calls return
